@@ -13,6 +13,7 @@ before the application sees the request and restores on finish and on close (exa
 C05), so nothing derived from one request is visible to the next.
 B: keep-alive request sequences with header grammars through the real HTTPServer(xheaders=True).
 """
+import re
 import socket
 import types
 
@@ -292,14 +293,35 @@ def standin(tier, seed):
     SOCK = "10.1.2.3"
     TRUSTED_DS = ["10.0.0.1", "10.0.0.2", SOCK]
     XFF = [None, "1.2.3.4", "1.2.3.4, 10.0.0.1", "10.0.0.1, 10.0.0.2", "10.0.0.1", "evil, 10.0.0.1", " 5.6.7.8 ,10.0.0.2 ", "1.2.3.4,", "", "::1, 10.0.0.1",
-           "1.2.3.4, 8.8.8.8", "not an ip", "1.2.3.4\t", "10.0.0.2,10.0.0.1,10.0.0.2", "2001:db8::1"]
-    REAL = [None, "4.4.4.4", "bogus", "", " 4.4.4.4", "10.0.0.1"]
+           "1.2.3.4, 8.8.8.8", "not an ip", "1.2.3.4\t", "10.0.0.2,10.0.0.1,10.0.0.2", "2001:db8::1", "4.4.4.4, \xb9.\xb2.\xb3.4", "2001:db8::7%<b>"]
+    REAL = [None, "4.4.4.4", "bogus", "", " 4.4.4.4", "10.0.0.1", "\xb9.\xb2.\xb3.4", '2001:db8::7%"><img src=x>', "fe80::1%lo"]
     PROTO = [None, ("X-Scheme", "https"), ("X-Forwarded-Proto", "https"), ("X-Forwarded-Proto", "http, https"), ("X-Scheme", "ftp"), ("X-Forwarded-Proto", "https, ftp"),
              ("X-Scheme", ""), ("X-Forwarded-Proto", " https "), ("X-Scheme", "HTTPS")]
     if tier == "quick":
         combos = [(x, r, p) for x in XFF for r in REAL[:3] for p in PROTO[:5]] + [(x, r, p) for x in XFF[:4] for r in REAL for p in PROTO]
     else:
         combos = list(itertools.product(XFF, REAL, PROTO))
+
+    def numeric(x):
+        """independent reading of 'a numeric IP address': ASCII text that inet_pton (or the legacy inet_aton forms) parses,
+        an IPv6 address possibly carrying a %zone made of interface-name characters"""
+        import socket as _s
+        if not x or not x.isascii() or "\x00" in x:
+            return False
+        host, pct, zone = x.partition("%")
+        for fam in (_s.AF_INET, _s.AF_INET6):
+            try:
+                _s.inet_pton(fam, host)
+                if fam == _s.AF_INET:
+                    return not pct
+                return (not pct) or re.fullmatch(r"[A-Za-z0-9_.:-]+", zone) is not None
+            except OSError:
+                pass
+        try:
+            _s.inet_aton(x)
+            return re.fullmatch(r"[0-9a-fA-FxX.]+", x) is not None
+        except OSError:
+            return False
 
     def expected(x, r, p, trusted):
         # (the HTTP header parser removes optional whitespace around every field value)
@@ -314,7 +336,7 @@ def standin(tier, seed):
                 if e not in trusted:
                     cand = e
                     break
-        ip = cand if (cand is not None and NU.is_valid_ip(cand)) else SOCK
+        ip = cand if (cand is not None and numeric(cand)) else SOCK
         proto = "http"
         if p is not None:
             last = p[1].split(",")[-1].strip()
@@ -358,13 +380,13 @@ def standin(tier, seed):
                 bad = "remote_ip/protocol %r, expected %r" % (seen[0], want)
             elif seen[1] != (SOCK, "http"):
                 bad = "values of the previous request leaked into the next one: %r" % (seen[1],)
-            elif not NU.is_valid_ip(seen[0][0]):
+            elif not numeric(seen[0][0]):
                 bad = "remote_ip %r is not a numeric address" % (seen[0][0],)
             if bad and len(failures) < 4:
                 failures.append({"what": bad, "history": {"X-Forwarded-For": x, "X-Real-Ip": r, "proto": p, "trusted_downstream": trusted}})
     # is_valid_ip's own contract (used as an uninterpreted predicate above)
     good = ["1.2.3.4", "0.0.0.0", "255.255.255.255", "::1", "2001:db8::1", "::ffff:1.2.3.4", "fe80::1"]
-    badv = ["", "a.b.c.d", "example.com", "1.2.3.4\x00", "\x00", "1.2.3.256", "1.2.3.4.5", "12345::1", "1.2.3.4 ", " 1.2.3.4", "x" * 100, "1.2.3.4,5.6.7.8", "localhost"]
+    badv = ["\xb9.\xb2.\xb3.4", "\uff11.\uff12.\uff13.\uff14", "1\u30022\u30023\u30024", '2001:db8::7%"><img src=x>', "2001:db8::7%junk junk", "::1%", "", "a.b.c.d", "example.com", "1.2.3.4\x00", "\x00", "1.2.3.256", "1.2.3.4.5", "12345::1", "1.2.3.4 ", " 1.2.3.4", "x" * 100, "1.2.3.4,5.6.7.8", "localhost"]
     for g in good:
         evals += 1
         if not NU.is_valid_ip(g):
